@@ -275,6 +275,15 @@ def handle (toks : List String) : String :=
       | .ok v => "ok " ++ showV v
       | .error e => errStr e
     | none => "bad-arg"
+  | ["dateobj", kind, y, m, d, hh, mi, ss] =>
+    -- a date / time / datetime object assigned to a DateField / TimeField / DateTimeField
+    match y.toNat?, m.toNat?, d.toNat?, hh.toNat?, mi.toNat?, ss.toNat? with
+    | some y, some m, some d, some hh, some mi, some ss =>
+      let k : Astm.Schema.Kind := if kind == "date" then .date else if kind == "time" then .time else .datetime
+      match Astm.Fields.setScalarObj k ⟨y, m, d, hh, mi, ss⟩ with
+      | .ok v => "ok " ++ showV (some v)
+      | .error e => errStr e
+    | _, _, _, _, _, _ => "bad-arg"
   | ["pyint", v] =>
     match parseCps (if v == "-" then "" else v) with
     | some s => match Astm.Fields.pyInt s with
